@@ -408,7 +408,11 @@ func fieldOf(v ssa.Value) (structName, fieldName string, base ssa.Value, ok bool
 		if n := namedOf(st); n != nil {
 			name = n.Obj().Name()
 		}
-		return name, canonFieldName(name, s, x.Field), x.X, true
+		fld := canonFieldName(name, s, x.Field)
+		if on, ob, ok := liftMovedField(name, fld, x.X); ok {
+			return on, fld, ob, true
+		}
+		return name, fld, x.X, true
 	case *ssa.Field:
 		st := x.X.Type()
 		s, isS := st.Underlying().(*types.Struct)
@@ -422,6 +426,52 @@ func fieldOf(v ssa.Value) (structName, fieldName string, base ssa.Value, ok bool
 		return name, canonFieldName(name, s, x.Field), x.X, true
 	}
 	return "", "", nil, false
+}
+
+// liftMovedField: a field that the pinned tree had directly in struct S and that now lives in a new
+// struct type held by S (`Segment.f`, `Segment.mm` moved into an embedded `mappedFile`) is still "field
+// fld of S": when the struct `name` is not a struct of the pinned tree, its address is a field of a pinned
+// struct S, S had a field called fld and has none now, the access is reported as (S, fld) on S's base.
+func liftMovedField(name, fld string, base ssa.Value) (string, ssa.Value, bool) {
+	if _, pinned := pinnedFields[name]; pinned || name == "" {
+		return "", nil, false
+	}
+	outer, ok := base.(*ssa.FieldAddr)
+	if !ok {
+		return "", nil, false
+	}
+	ost := derefType(outer.X.Type())
+	os, isS := ost.Underlying().(*types.Struct)
+	if !isS {
+		return "", nil, false
+	}
+	on := ""
+	if n := namedOf(ost); n != nil {
+		on = n.Obj().Name()
+	}
+	pf, pinned := pinnedFields[on]
+	if !pinned {
+		// one more level (a struct inside a struct inside S)
+		if on2, ob2, ok := liftMovedField(on, fld, outer.X); ok {
+			return on2, ob2, true
+		}
+		return "", nil, false
+	}
+	had := false
+	for _, f := range pf {
+		if strings.HasPrefix(f, fld+" ") {
+			had = true
+		}
+	}
+	if !had {
+		return "", nil, false
+	}
+	for i := 0; i < os.NumFields(); i++ {
+		if os.Field(i).Name() == fld {
+			return "", nil, false // S still has its own field of that name
+		}
+	}
+	return on, outer.X, true
 }
 
 // loadedField: v is a load `*(&x.f)`; returns struct, field, base.
